@@ -2,6 +2,7 @@
 
 use std::cell::RefCell;
 use std::rc::Rc;
+use std::sync::atomic::{AtomicU64, Ordering};
 
 use falcon_rust::verif_hooks as vh;
 use falcon_rust::verif_hooks::Event;
@@ -25,7 +26,28 @@ pub struct SignOutcome<V: Fv> {
     pub compress_fails: usize,
 }
 
+/// Circuit breaker: every no-progress verdict costs the randomness of 1000 honest attempts.
+/// After a few of them in one process, further scripted sign calls fail fast with the same
+/// verdict (the run is already "violated"; the remaining workload would only burn time).
+static NO_PROGRESS_SEEN: AtomicU64 = AtomicU64::new(0);
+pub const BREAKER_AT: u64 = 4;
+
+pub fn sign_is_stuck() -> bool {
+    NO_PROGRESS_SEEN.load(Ordering::SeqCst) >= BREAKER_AT
+}
+
 pub fn sign_scripted<V: Fv>(msg: &[u8], sk: &V::Sk, rng: ScriptedRng, log_sampler: bool, compress_failures: u32) -> SignOutcome<V> {
+    if sign_is_stuck() {
+        return SignOutcome {
+            sig: Err(PanicInfo { message: "circuit breaker: sign made no progress in earlier calls of this run".into(), location: "harness".into(), no_progress: true }),
+            events: vec![],
+            draws: 0,
+            fills: 0,
+            first_fill: None,
+            norm_rejects: 0,
+            compress_fails: 0,
+        };
+    }
     let rc = Rc::new(RefCell::new(rng));
     vh::take_events();
     vh::set_sign_rng(Some(Box::new(SharedRng(rc.clone()))));
@@ -36,6 +58,11 @@ pub fn sign_scripted<V: Fv>(msg: &[u8], sk: &V::Sk, rng: ScriptedRng, log_sample
     vh::set_compress_failures(0);
     vh::set_logging(false, false, false);
     let events = vh::take_events();
+    if let Err(p) = &sig {
+        if p.no_progress {
+            NO_PROGRESS_SEEN.fetch_add(1, Ordering::SeqCst);
+        }
+    }
     let r = rc.borrow();
     let norm_rejects = events.iter().filter(|e| matches!(e, Event::NormReject(_))).count();
     let compress_fails = events.iter().filter(|e| matches!(e, Event::CompressFail)).count();
@@ -52,4 +79,13 @@ pub fn sign_scripted<V: Fv>(msg: &[u8], sk: &V::Sk, rng: ScriptedRng, log_sample
 
 pub fn sign_honest<V: Fv>(msg: &[u8], sk: &V::Sk, seed: u64, label: &str) -> SignOutcome<V> {
     sign_scripted::<V>(msg, sk, ScriptedRng::new(seed, label, Strategy::Honest, progress_budget(V::N)), false, 0)
+}
+
+/// Canary for legs that call the un-overridden `sign` (which the harness cannot bound by
+/// logical steps): one bounded signing call first. Returns false if signing does not
+/// terminate or panics -- the leg then reports "inconclusive" instead of hanging until the
+/// watchdog (C01 reports the defect itself).
+pub fn canary<V: Fv>(sk: &V::Sk) -> bool {
+    let out = sign_scripted::<V>(b"canary", sk, ScriptedRng::new(0xCA, "canary", Strategy::Honest, progress_budget(V::N) / 10), false, 0);
+    out.sig.is_ok()
 }
